@@ -92,7 +92,7 @@ theorem removeNow_ops (o : Options) (p : Bytes) (b : Bool) {s s' : DState} {r : 
   rw [run_bind] at h
   have hB : ∀ {M B : List FsOp},
       (∀ op ∈ M, ∃ d ∈ dirPrefixes (backupName o p), op = FsOp.mkdir (absPath s d)) →
-      (B = [] ∨ B = [FsOp.rename (absPath s p) (absPath s (backupName o p))] ∨ B = [FsOp.creat (absPath s (backupName o p))]) →
+      BackupOps (absPath s p) (absPath s (backupName o p)) B →
       (b = false ∨ s.backedUp.contains (backupName o p) = true → M = [] ∧ B = []) → ∀ op ∈ M ++ B, RemovalOp o s [(p, b)] op := by
     intro M B h0 h1 h2 op hop
     cases b with
@@ -100,10 +100,14 @@ theorem removeNow_ops (o : Options) (p : Bytes) (b : Bool) {s s' : DState} {r : 
     | true =>
       rcases List.mem_append.1 hop with hop | hop
       · exact Or.inr ⟨_, List.mem_singleton.2 rfl, rfl, Or.inr (Or.inr (h0 op hop))⟩
-      · rcases h1 with rfl | rfl | rfl
+      · rcases h1 with rfl | rfl | rfl | rfl | rfl
         · cases hop
         · rw [List.mem_singleton.1 hop]; exact Or.inr ⟨_, List.mem_singleton.2 rfl, rfl, Or.inl rfl⟩
         · rw [List.mem_singleton.1 hop]; exact Or.inr ⟨_, List.mem_singleton.2 rfl, rfl, Or.inr (Or.inl rfl)⟩
+        · rw [List.mem_singleton.1 hop]; exact Or.inl ⟨_, Or.inl rfl⟩
+        · rcases List.mem_cons.1 hop with rfl | hop
+          · exact Or.inl ⟨_, Or.inl rfl⟩
+          · rw [List.mem_singleton.1 hop]; exact Or.inr ⟨_, List.mem_singleton.2 rfl, rfl, Or.inr (Or.inl rfl)⟩
   split at h
   · next _ s1 h1 =>
     obtain ⟨c1, M, B, t1, hM, hB1, -, hB0, -⟩ := backupStep_shape o b p h1
@@ -185,6 +189,132 @@ theorem removals_ops (o : Options) (ws : List DeferredWrite) :
       cases h
       exact (step h1).1
 
+/-- an operation of the write phase of `DeferredWriter::finalize`: never an `rmdir`, and no `unlink` but that of (a symbolic link or a
+    regular file which has) the backup name of a deferred write whose backup is due (`make_way_for`, D95 D101: the empty backup of a file
+    which did not exist is neither written through a link nor into a file which may have other names) -/
+def WriteOp (o : Options) (s : DState) (l : List DeferredWrite) (op : FsOp) : Prop :=
+  ∀ p, (op = FsOp.unlink p → ∃ w ∈ l, w.backup = true ∧ p = absPath s (backupName o w.dest)) ∧ op ≠ FsOp.rmdir p
+
+theorem WriteOp.cwd {o : Options} {s s1 : DState} {l : List DeferredWrite} {op : FsOp} (hc : s1.cwd = s.cwd)
+    (h : WriteOp o s1 l op) : WriteOp o s l op := by
+  unfold WriteOp at *
+  simp only [absPath_cwd hc] at h
+  exact h
+
+/-- the operations of one deferred write -/
+theorem finalizeWrite_ops (o : Options) (w : DeferredWrite) {s s' : DState} {r : Except Exn Unit}
+    (h : (ensureParentDirs w.dest >>= fun _ => writeNow o w.dest w.perm w.backup w.content w.newMode).run s = (r, s')) :
+    s'.cwd = s.cwd ∧ ∃ ops, s'.trace = s.trace ++ ops ∧ ∀ op ∈ ops, WriteOp o s [w] op := by
+  rw [run_bind] at h
+  split at h
+  · next _ s1 h1 =>
+    obtain ⟨⟨fs1, t1, n1, rfl⟩, ⟨D, tD, hD⟩, -⟩ := ensureParentDirs_shape _ h1
+    obtain ⟨c2, M, B, W, C, t2, hM, hB, hW, hC, -, hnone, -, -⟩ := writeNow_shape _ _ _ _ _ _ h
+    refine ⟨c2, D ++ (M ++ B ++ W ++ C), by rw [t2]; show t1 ++ _ ++ _ ++ _ ++ _ = _; rw [show t1 = s.trace ++ D from tD]; simp only [List.append_assoc], ?_⟩
+    have hbn : ∀ q, absPath { s with fs := fs1, trace := t1, opCount := n1 } q = absPath s q := fun _ => rfl
+    simp only [hbn] at hM hB hW hC
+    have hunl : ∀ op ∈ B, ∀ p, (op = FsOp.unlink p → ∃ w' ∈ [w], w'.backup = true ∧ p = absPath s (backupName o w'.dest)) ∧
+        op ≠ FsOp.rmdir p := by
+      intro op hop p
+      have hbk : w.backup = true := by
+        cases hb : w.backup
+        · rw [(hnone (Or.inl hb)).2] at hop; cases hop
+        · rfl
+      rcases hB with rfl | rfl | rfl | rfl | rfl
+      · cases hop
+      · rw [List.mem_singleton.1 hop]; exact ⟨nofun, nofun⟩
+      · rw [List.mem_singleton.1 hop]; exact ⟨nofun, nofun⟩
+      · rw [List.mem_singleton.1 hop]
+        exact ⟨fun e => ⟨w, List.mem_singleton.2 rfl, hbk, by cases e; rfl⟩, nofun⟩
+      · rcases List.mem_cons.1 hop with rfl | hop
+        · exact ⟨fun e => ⟨w, List.mem_singleton.2 rfl, hbk, by cases e; rfl⟩, nofun⟩
+        · rw [List.mem_singleton.1 hop]; exact ⟨nofun, nofun⟩
+    intro op hop p
+    rcases List.mem_append.1 hop with hop | hop
+    · obtain ⟨d, _, rfl⟩ := hD op hop; exact ⟨nofun, nofun⟩
+    · rcases List.mem_append.1 hop with hop | hop
+      · rcases List.mem_append.1 hop with hop | hop
+        · rcases List.mem_append.1 hop with hop | hop
+          · obtain ⟨d, _, rfl⟩ := hM op hop; exact ⟨nofun, nofun⟩
+          · exact hunl op hop p
+        · rcases hW with rfl | ⟨m, rfl⟩
+          · cases hop
+          · rw [List.mem_singleton.1 hop]; exact ⟨nofun, nofun⟩
+      · rcases hC with rfl | ⟨C', rfl, hC'⟩
+        · cases hop
+        · rcases List.mem_cons.1 hop with rfl | hop
+          · exact ⟨nofun, nofun⟩
+          · rcases hC' op hop with ⟨b, rfl⟩ | ⟨m, rfl⟩ <;> exact ⟨nofun, nofun⟩
+  · next e s1 h1 =>
+    cases h
+    obtain ⟨⟨fs1, t1, n1, rfl⟩, ⟨D, tD, hD⟩, -⟩ := ensureParentDirs_shape _ h1
+    refine ⟨rfl, D, tD, ?_⟩
+    intro op hop p
+    obtain ⟨d, _, rfl⟩ := hD op hop; exact ⟨nofun, nofun⟩
+
+/-- the write loop -/
+theorem writes_ops (o : Options) :
+    ∀ (l : List DeferredWrite) {s s' : DState} {r : Except Exn PUnit},
+      (forIn l PUnit.unit fun (w : DeferredWrite) (_ : PUnit) => do
+        ensureParentDirs w.dest
+        writeNow o w.dest w.perm w.backup w.content w.newMode
+        (pure (ForInStep.yield PUnit.unit) : DM (ForInStep PUnit))).run s = (r, s') →
+      s'.cwd = s.cwd ∧ ∃ ops, s'.trace = s.trace ++ ops ∧ ∀ op ∈ ops, WriteOp o s l op
+  | [], s, s', r, h => by
+    rw [List.forIn_nil] at h; cases h
+    exact ⟨rfl, [], by simp, by simp⟩
+  | w :: l, s, s', r, h => by
+    rw [List.forIn_cons, run_bind] at h
+    have mono1 : ∀ op, WriteOp o s [w] op → WriteOp o s (w :: l) op := by
+      intro op h p
+      refine ⟨fun e => ?_, (h p).2⟩
+      obtain ⟨w', hw', h'⟩ := (h p).1 e
+      rw [List.mem_singleton.1 hw'] at h'
+      exact ⟨w, List.mem_cons_self, h'⟩
+    have mono2 : ∀ op, WriteOp o s l op → WriteOp o s (w :: l) op := by
+      intro op h p
+      refine ⟨fun e => ?_, (h p).2⟩
+      obtain ⟨w', hw', h'⟩ := (h p).1 e
+      exact ⟨w', List.mem_cons_of_mem _ hw', h'⟩
+    have step : ∀ {s1 : DState} {r1 : Except Exn (ForInStep PUnit)},
+        (do
+          ensureParentDirs w.dest
+          writeNow o w.dest w.perm w.backup w.content w.newMode
+          (pure (ForInStep.yield PUnit.unit) : DM (ForInStep PUnit))).run s = (r1, s1) →
+        (s1.cwd = s.cwd ∧ ∃ ops, s1.trace = s.trace ++ ops ∧ ∀ op ∈ ops, WriteOp o s (w :: l) op) ∧
+        ∀ x, r1 = .ok x → x = ForInStep.yield PUnit.unit := by
+      intro s1 r1 h1
+      have e : (do
+          ensureParentDirs w.dest
+          writeNow o w.dest w.perm w.backup w.content w.newMode
+          (pure (ForInStep.yield PUnit.unit) : DM (ForInStep PUnit))) =
+          ((ensureParentDirs w.dest >>= fun _ => writeNow o w.dest w.perm w.backup w.content w.newMode) >>= fun _ =>
+            (pure (ForInStep.yield PUnit.unit) : DM (ForInStep PUnit))) := by
+        simp only [bind_assoc]
+      rw [e, run_bind] at h1
+      split at h1
+      · next _ s2 h2 =>
+        cases h1
+        obtain ⟨c, ops, t, ho⟩ := finalizeWrite_ops o w h2
+        exact ⟨⟨c, ops, t, fun op hop => mono1 op (ho op hop)⟩, fun x hx => by cases hx; rfl⟩
+      · next _ s2 h2 =>
+        cases h1
+        obtain ⟨c, ops, t, ho⟩ := finalizeWrite_ops o w h2
+        exact ⟨⟨c, ops, t, fun op hop => mono1 op (ho op hop)⟩, fun x hx => by cases hx⟩
+    split at h
+    · next a s1 h1 =>
+      obtain ⟨⟨c1, ops1, t1, ho1⟩, ha⟩ := step h1
+      rw [ha a rfl] at h
+      obtain ⟨c2, ops2, t2, ho2⟩ := writes_ops o l h
+      refine ⟨c2.trans c1, ops1 ++ ops2, by rw [t2, t1, List.append_assoc], ?_⟩
+      intro op hop
+      rcases List.mem_append.1 hop with hop | hop
+      · exact ho1 op hop
+      · exact mono2 op ((ho2 op hop).cwd c1)
+    · next e1 s1 h1 =>
+      cases h
+      exact (step h1).1
+
 def CwdR (s s' : DState) : Prop := s'.cwd = s.cwd
 theorem good_cwd : Good CwdR (fun _ => CwdR) := ⟨fun _ => rfl, fun h1 h2 => h2.trans h1, fun h1 h2 => h2.trans h1⟩
 
@@ -198,42 +328,21 @@ theorem good_cwd : Good CwdR (fun _ => CwdR) := ⟨fun _ => rfl, fun h1 h2 => h2
         … ∧ (∀ op ∈ ws, ∀ p, op ≠ FsOp.unlink p ∧ op ≠ FsOp.rmdir p) ∧ (∀ op ∈ rs, ∃ p, op = FsOp.unlink p ∨ op = FsOp.rmdir p)
 
     which is false now (`finalize_removals_last_old_false` below: the backup `rename` of a second removal comes after the `unlink`
-    of the first); it still holds when no removal entry has a backup due (`finalize_removals_last_plain`). -/
+    of the first); it still holds when no removal entry has a backup due (`finalize_removals_last_plain`).
+
+    CHANGED with the model change `remove_symbolic_link` (D95): "no `unlink`/`rmdir` among `ws`" is `WriteOp` now — no `rmdir`, and no
+    `unlink` but that of the backup name of a deferred write whose backup is due (a symbolic link of that name is replaced by the empty
+    backup of a file which did not exist, `C18.makeBackupFor_missing_replaces_link`). -/
 theorem finalize_removals_last (o : Options) (s s' : DState) (r : Except Exn Unit) (h : (finalizeDeferred o).run s = (r, s')) :
     ∃ ws rs, s'.trace = s.trace ++ ws ++ rs ∧
-      (∀ op ∈ ws, ∀ p, op ≠ FsOp.unlink p ∧ op ≠ FsOp.rmdir p) ∧
+      (∀ op ∈ ws, WriteOp o s s.dWrites op) ∧
       (∀ op ∈ rs, RemovalOp o s s.dRemovals op) := by
   rw [finalizeDeferred_eq, run_bind, run_get] at h
   simp only [] at h
   rw [run_bind] at h
-  have hA : TrExt (fun op => ∀ p, op ≠ FsOp.unlink p ∧ op ≠ FsOp.rmdir p)
-      (forIn s.dWrites PUnit.unit fun w (_ : PUnit) => do
-        ensureParentDirs w.dest
-        writeNow o w.dest w.perm w.backup w.content w.newMode
-        (pure (ForInStep.yield PUnit.unit) : DM (ForInStep PUnit))) := by
-    unfold writeNow
-    spec_walk (good_ext _)
-    all_goals first
-      | exact ensureParentDirs_trExt (by intro p q; simp) _
-      | exact makeWritable_trExt (by intro p m q; simp) _ _
-      | exact makeBackupFor_trExt (by intro a q; simp) (by intro a b q; simp) (by intro a q; simp) _ _
-      | exact writeFile_trExt (by intro p q; simp) (by intro p b q; simp) _ _
-      | exact permissionCallback_trExt (by intro p m q; simp) _ _ _
-  have hC : Spec CwdR (fun _ => CwdR)
-      (forIn s.dWrites PUnit.unit fun w (_ : PUnit) => do
-        ensureParentDirs w.dest
-        writeNow o w.dest w.perm w.backup w.content w.newMode
-        (pure (ForInStep.yield PUnit.unit) : DM (ForInStep PUnit))) := by
-    have h1 : ∀ p, Spec CwdR (fun _ => CwdR) (ensureParentDirs p) := fun p =>
-      ⟨fun _ _ _ h => ensureParentDirs_keeps (·.cwd) (fun _ _ _ _ => rfl) p h,
-       fun _ _ _ h => ensureParentDirs_keeps (·.cwd) (fun _ _ _ _ => rfl) p h⟩
-    have h2 : ∀ a b c d e, Spec CwdR (fun _ => CwdR) (writeNow o a b c d e) := fun a b c d e =>
-      ⟨fun _ _ _ h => (writeNow_shape o a b c d e h).1, fun _ _ _ h => (writeNow_shape o a b c d e h).1⟩
-    spec_walk good_cwd
   split at h
   · next a s1 h1 =>
-    obtain ⟨ws, t1, hw⟩ := hA.run h1
-    have c1 : s1.cwd = s.cwd := hC.ok _ _ _ h1
+    obtain ⟨c1, ws, t1, hw⟩ := writes_ops o s.dWrites h1
     rw [run_bind] at h
     have key : ∀ {r2 : Except Exn PUnit} {s2 : DState},
         (forIn s.dRemovals PUnit.unit fun e (_ : PUnit) =>
@@ -256,18 +365,21 @@ theorem finalize_removals_last (o : Options) (s s' : DState) (r : Except Exn Uni
       exact ⟨ws, rs, t, hw, hr⟩
   · next e s1 h1 =>
     cases h
-    obtain ⟨ws, t1, hw⟩ := hA.run h1
+    obtain ⟨-, ws, t1, hw⟩ := writes_ops o s.dWrites h1
     exact ⟨ws, [], by rw [t1]; simp, hw, by simp⟩
 
 
-/-- the statement as it was, for runs in which no removal has a backup due (in particular: no -b, every hunk applied exactly) -/
+/-- the statement as it was, for runs in which no removal and no deferred write has a backup due (in particular: no -b, every hunk
+    applied exactly).  (`hbw` is new with `remove_symbolic_link`: the backup of a deferred write may begin with the `unlink` of a link.) -/
 theorem finalize_removals_last_plain (o : Options) (s s' : DState) (r : Except Exn Unit) (h : (finalizeDeferred o).run s = (r, s'))
-    (hb : ∀ e ∈ s.dRemovals, e.2 = false) :
+    (hb : ∀ e ∈ s.dRemovals, e.2 = false) (hbw : ∀ w ∈ s.dWrites, w.backup = false) :
     ∃ ws rs, s'.trace = s.trace ++ ws ++ rs ∧
       (∀ op ∈ ws, ∀ p, op ≠ FsOp.unlink p ∧ op ≠ FsOp.rmdir p) ∧
       (∀ op ∈ rs, ∃ p, op = FsOp.unlink p ∨ op = FsOp.rmdir p) := by
   obtain ⟨ws, rs, t, hw, hr⟩ := finalize_removals_last o s s' r h
-  refine ⟨ws, rs, t, hw, fun op hop => ?_⟩
+  refine ⟨ws, rs, t, fun op hop p => ⟨fun e => ?_, (hw op hop p).2⟩, fun op hop => ?_⟩
+  · obtain ⟨w, hw', hbk, -⟩ := (hw op hop p).1 e
+    rw [hbw w hw'] at hbk; cases hbk
   rcases hr op hop with h | ⟨e, he, h, -⟩
   · exact h
   · rw [hb e he] at h; cases h
